@@ -6,5 +6,5 @@ tier=${1:-quick}
 par=${2:-3}
 cd "$(dirname "$0")/.."
 mkdir -p build/logs
-ids="C01 C02 C03 C04 C05 C06 C07 C08 C09 C10 C11 C12 C13 C14 C15 C16 C17 C18 C19 C20 X01 X02"
+ids="C01 C02 C03 C04 C05 C06 C07 C08 C09 C10 C11 C12 C13 C14 C15 C16 C17 C18 C19 C20 X01 X02 X03"
 echo $ids | tr ' ' '\n' | xargs -P "$par" -I{} sh -c "python3 bin/check.py {} --tier $tier > build/logs/{}-$tier.log 2>&1; echo \"{} rc=\$? \$(grep -c '^VIOLATION' build/logs/{}-$tier.log) violations; \$(tail -1 build/logs/{}-$tier.log | cut -c1-150)\""
